@@ -403,6 +403,12 @@ func (txn *Txn) modify(e *Entry) error {
 		return err
 	}
 
+	if txn.db.opt.InMemory {
+		// There is no value log in in-memory mode: every accepted value, including one
+		// whose length equals the value threshold, stays in the LSM tree.
+		e.valThreshold = math.MaxInt64
+	}
+
 	if err := txn.checkSize(e); err != nil {
 		return err
 	}
